@@ -50,9 +50,55 @@ def _closed_while_failing(rng):
             "config": {"waitq": rng.choice(["heap", "sd"])}}
 
 
+def _closure_awaiters(rng):
+    """Directed shape: children of a scope fail with the *closure or cancellation of another
+    task* (they awaited a task that was closed with its scope, or cancelled, and do not handle
+    that): such failures stop the scope but never show in a Concurrent, and the scope's own cancel
+    signal - queued once per failing child - must be gone when the block has been left."""
+    mode = rng.choice(["closed", "closed", "cancelled"])
+    pre = []
+    if mode == "closed":
+        # t is a volatile child of an earlier scope: closed when that scope ends
+        t = {"name": "t", "volatile": True, "ops": [{"op": "sleep", "d": 64}]}
+        pre.append({"op": "scope", "label": "S0", "children": [t],
+                    "body": [{"op": "sleep", "d": rng.choice([0.5, 1])}]})
+        outer_children = []
+    else:
+        # t runs next to the scope and is cancelled while the children wait for it
+        t = {"name": "t", "ops": [{"op": "sleep", "d": 64}]}
+        outer_children = [t, {"name": "canc", "ops": [
+            {"op": "sleep", "d": rng.choice([2, 3])},
+            {"op": "cancel", "task": "t", "token": ["stop"]}]}]
+    kids = []
+    for i in range(rng.randint(1, 3)):
+        ops = [{"op": "postpone", "k": rng.randint(0, 2)}] if rng.random() < 0.5 else []
+        ops.append({"op": "await_task", "task": "t", "reraise": True})
+        kids.append({"name": "a%d" % i, "ops": ops})
+    for i in range(rng.randint(0, 2)):
+        kids.append({"name": "b%d" % i, "ops": [{"op": "sleep", "d": rng.choice([1, 4, 8])},
+                                                {"op": "now"}]})
+    rng.shuffle(kids)
+    block = {"op": "scope", "label": "S1", "children": kids,
+             "body": [{"op": "sleep", "d": rng.choice([1, 4, 8])}, {"op": "now"}]}
+    after = [{"op": "now", "tag": "after"}]
+    for _ in range(rng.randint(1, 3)):
+        after.append(rng.choice([{"op": "sleep", "d": 1}, {"op": "postpone", "k": 2}]))
+        after.append({"op": "now", "tag": "after"})
+    own = {"name": "own", "ops": pre + [{"op": "try", "all": True, "body": [block]}] + after}
+    if outer_children:
+        actors = [{"name": "top", "ops": [{"op": "scope", "label": "SX",
+                                           "children": outer_children + [own], "body": []}]}]
+    else:
+        actors = [own]
+    return {"property": ID, "scenario": {"resources": {}, "actors": actors}, "plan": [],
+            "config": {"waitq": rng.choice(["heap", "sd"])}}
+
+
 def generate(rng, tier):
     if rng.random() < 0.02:
         return _closed_while_failing(rng)
+    if rng.random() < 0.03:
+        return _closure_awaiters(rng)
     gen = Gen(rng, fail_rate=rng.choice([0.15, 0.3, 0.5]), priv_rate=rng.choice([0.0, 0.15, 0.4]),
               until_rate=rng.choice([0.0, 0.3]), max_depth=2, cancel_rate=0.1)
     scenario, label = gen.program()
